@@ -445,6 +445,17 @@ func c10accuracy(x *big.Rat, pct int, out string, sci bool) (bool, string) {
 		ulp = new(big.Rat)
 	}
 	slack := new(big.Rat).Mul(ulp, big.NewRat(2, 1))
+	// the representation error of the stored value itself (matters for subnormals) is scaled by 100^pct
+	xf, _ := new(big.Rat).Abs(x).Float64()
+	if sx := math.Nextafter(xf, math.Inf(1)) - xf; !math.IsInf(sx, 0) && !math.IsNaN(sx) {
+		if u := new(big.Rat).SetFloat64(sx); u != nil {
+			u.Mul(u, big.NewRat(2, 1))
+			u.Mul(u, new(big.Rat).SetInt(c10pow10(2*pct)))
+			if u.Cmp(slack) > 0 {
+				slack = u
+			}
+		}
+	}
 	// four correctly rounded binary64 operations (parse, percent scaling, *10^d, /10^d): 4 * 2^-53 relative
 	if rel := new(big.Rat).Mul(want, big.NewRat(1, 1<<51)); rel.Cmp(slack) > 0 {
 		slack = rel
@@ -511,6 +522,9 @@ func c10class(c c10case, isNum bool) string {
 		return "text"
 	}
 	if x, ok := c10exact(c.value); ok {
+		if f, _ := strconv.ParseFloat(c.value, 64); (f == 0) != (x.Sign() == 0) {
+			return "other" // underflows binary64: outside the property's quantifier
+		}
 		switch x.Sign() {
 		case 0:
 			return "zero"
